@@ -2,7 +2,8 @@
 Spec.PartitionLemmas — lemmas about the Dict / networkx-Graph model needed by Contracts.Partition
 (get?/set algebra of `Dict`, `Graph.addEdge`, `Graph.copy`, `Graph.setNodeAttrNamed` preserve the
 representation invariant `Graph.WF` and act on the abstract view `attr` / `nbrs` as expected).
-Code-independent.
+Code-independent. Everything lives in namespace `PartLemmas` so that the names cannot clash with
+the general library Spec/GraphLemmas.lean (which was written concurrently and overlaps in part).
 -/
 import Spec.GraphView
 set_option autoImplicit false
@@ -13,7 +14,7 @@ open Py
 
 /-! ## Local lemma library about the Dict / Graph model -/
 
-namespace Py
+namespace PartLemmas
 namespace Dict
 variable {κ ν : Type} [DecidableEq κ]
 
@@ -149,9 +150,9 @@ theorem WF.foldl_set {d : Dict κ ν} (hd : d.WF) (l : List (κ × ν)) :
     (l.foldl (fun d p => d.set p.1 p.2) d).WF := by
   induction l generalizing d with
   | nil => exact hd
-  | cons p l ih => exact ih (hd.set _ _)
+  | cons p l ih => exact ih (WF.set hd _ _)
 
-theorem WF.update {d : Dict κ ν} (hd : d.WF) (e : Dict κ ν) : (d.update e).WF := hd.foldl_set _
+theorem WF.update {d : Dict κ ν} (hd : d.WF) (e : Dict κ ν) : (d.update e).WF := WF.foldl_set hd _
 
 /-- building a dict from pairs with distinct keys keeps the pairs as they are -/
 theorem foldl_set_items (d : Dict κ ν) (l : List (κ × ν)) (hn : (l.map Prod.fst).Nodup)
@@ -179,9 +180,9 @@ theorem ofPairs_items (l : List (κ × ν)) (hn : (l.map Prod.fst).Nodup) : (Dic
   simp [Dict.empty]
 
 end Dict
-end Py
+end PartLemmas
 
-namespace Py
+namespace PartLemmas
 namespace Dict
 variable {κ ν : Type} [DecidableEq κ]
 
@@ -200,6 +201,7 @@ theorem getD_empty_get? (o : Option (Dict κ ν)) (y : κ) :
 end Dict
 
 namespace Graph
+open Py.Graph
 
 theorem mem_nodeList_iff (g : Graph) (n : Int) : n ∈ g.nodeList ↔ (g.node.get? n).isSome :=
   (Dict.get?_isSome_iff g.node n).symm
@@ -326,10 +328,10 @@ theorem addEdge_wf {g : Graph} (hw : g.WF) (u v : Int) (a : Attrs) (hu : u ∈ g
     · cases hd
       apply Dict.WF.set
       split
-      · exact (hopt u).set _ _
+      · exact Dict.WF.set (hopt u) _ _
       · exact hopt v
     · split at hd
-      · cases hd; exact (hopt u).set _ _
+      · cases hd; exact Dict.WF.set (hopt u) _ _
       · exact hw.nbr_wf x d hd
   · intro x y hy
     rw [mem_nbrs_iff, edgeAttrs_addEdge g u v a hu hv] at hy
@@ -400,10 +402,11 @@ theorem foldl_addEdge {g : Graph} (hw : g.WF) (es : List (Int × Int × Attrs))
       · exact Or.inr ⟨a, Or.inr h⟩
 
 end Graph
-end Py
+end PartLemmas
 
-namespace Py
+namespace PartLemmas
 namespace Graph
+open Py.Graph
 
 /-! ### `Graph.copy` -/
 
@@ -605,7 +608,7 @@ theorem setAttr1_wf {g : Graph} (hw : g.WF) (n : Int) (name : String) (v : Val) 
       rw [h] at hb
       simp only [Dict.get?_set] at hb
       split at hb
-      · cases hb; exact (hw.attrs_wf n a h).set _ _
+      · cases hb; exact Dict.WF.set (hw.attrs_wf n a h) _ _
       · exact hw.attrs_wf x b hb
   · rw [ha]; exact hw.nbr_wf
   · intro x y hy; rw [hnb] at hy; show y ∈ (setAttr1 g n name v).node.keys; rw [hk]; exact hw.nbr_mem x y hy
@@ -630,4 +633,4 @@ theorem setNodeAttrNamed_map_spec {g : Graph} (hw : g.WF) (l : List Int) (f : In
       by_cases hxg : x ∈ g.nodeList <;> simp_all
 
 end Graph
-end Py
+end PartLemmas
